@@ -185,7 +185,9 @@ RstViolated(in, p, o) ==
            wi == Words(ia)
            wo == Words(o.atoms)
        IN  (IF wo = wi \/ (EndsWithQuote(ia) /\ wo = Padded(wi)) THEN {} ELSE {"words"})
-     \cup  (IF UsesConverter(in) \/ \A i \in 1..Len(L) : WidthOf(L[i]) <= p.width \/ NWords(L[i]) <= 1
+     \cup  (IF UsesConverter(in) \/ \A i \in 1..Len(L) :
+                    \/ WidthOf(L[i]) <= p.width + (IF i = Len(L) /\ EndsWithQuote(ia) THEN 1 ELSE 0)   \* the guard's period is not text
+                    \/ NWords(L[i]) <= 1
             THEN {} ELSE {"width"})
      \cup  (IF o.atoms # <<>> /\ Last(o.atoms).k = "q" THEN {"tail-quote"} ELSE {})
 
@@ -254,7 +256,7 @@ RstClass(in, p, o, v) ==
          (IF UsesConverter(in) THEN "converter:words:"
           ELSE IF FirstLineRewrapped(in, [width |-> p.width - p.indent, offset |-> p.indent + 3]) THEN "first-line-rewrap:"
           ELSE "words:") \o InputFeature(in)
-  ELSE "width:" \o (IF EndsWithQuote(Expand(in)) THEN "quote-pad" ELSE InputFeature(in))
+  ELSE "width:" \o InputFeature(in)
 FixClass(v) == IF "lines" \in v THEN "lines" ELSE IF "ast" \in v THEN "ast"
                ELSE IF "blank-added" \in v THEN "blank-added" ELSE IF "idempotent" \in v THEN "idempotent"
                ELSE IF "final-newline" \in v THEN "final-newline" ELSE "trailing-blanks"
